@@ -1,8 +1,32 @@
+import XehModel.Model.Arith
 import XehModel.Driver.Codec
 
-namespace Xeh.Driver.C08
+/-!
+C08 driver — the small correspondence part of the crash-freedom property.
 
-/-- stub: not modelled yet -/
-def handle (_args : List String) : String := "unsupported"
+Request `C08 arith <word> <cell>*` (cells bottom-first, same cell syntax as C09); the answer is the
+*outcome class* only: `ok | err | panic`. The implementation side answers with the class it
+observed under `catch_unwind` in the debug and the release profile, so a panic that appears in a
+modelled function is a model/implementation disagreement whose request line is the replay.
+-/
+namespace Xeh.Driver.C08
+open Xeh Xeh.Codec
+
+def classOf : Outcome (List Cell) → String
+  | .ok _ => "ok"
+  | .err _ => "err"
+  | .panic _ => "panic"
+
+/-- the model's answer for a request that names a modelled arithmetic word -/
+def arithAnswer (p : Prog) (cs : List Cell) : String := classOf (p.runStack 0 cs.reverse)
+
+def handle (args : List String) : String :=
+  match args with
+  | "arith" :: w :: cells =>
+    match arithWord w, readCells cells with
+    | some p, some cs => arithAnswer p cs
+    | none, _ => "unsupported"
+    | _, none => "bad-args"
+  | _ => "unsupported"
 
 end Xeh.Driver.C08
